@@ -60,6 +60,10 @@ impl Validator {
             }))
             .collect::<Vec<String>>();
         let mut visited_headers = HashSet::<String>::new();
+        // Values (DEFAULTs, value assignments) are linked against their governing types in a
+        // second pass, after the references inside the constraints of *all* types have been
+        // resolved; otherwise the result depends on how the names sort.
+        let second_pass = keys.clone();
         while let Some(key) = keys.pop() {
             if matches![
                 self.tlds.get(&key),
@@ -142,6 +146,9 @@ impl Validator {
                     }
                 };
             }
+        }
+        let mut keys = second_pass;
+        while let Some(key) = keys.pop() {
             if let Some((k, mut tld)) = self.tlds.remove_entry(&key) {
                 if let Err(mut e) = tld.collect_supertypes(&self.tlds) {
                     e.contextualize(&key);
